@@ -36,6 +36,7 @@
 #include "output.h"
 #include "stream.h"
 #include "connection.h"
+#include "notify.h"
 #undef protected
 #undef private
 
